@@ -212,6 +212,99 @@ theorem decode_loop (bs : List Nat) (hb : ∀ b ∈ bs, b < 256) (mn cnt w : Nat
         have e2 : ptr + w + n * w = ptr + (n + 1) * w := by rw [Nat.succ_mul]; omega
         rw [e2]
 
+/-- the element loop of `varintFORDecodeBlock` (same body, bounded by the block size) -/
+theorem block_loop (bs : List Nat) (hb : ∀ b ∈ bs, b < 256) (mn cnt w : Nat) (h1 : 1 ≤ w) (h8 : w ≤ 8)
+    (hcnt : cnt < 2 ^ 64) :
+    ∀ (n i ptr : Nat) (st : List (Nat × Nat)) (vs : List Nat), i + n = cnt →
+      readOffsets n mn w (bs.drop ptr) = some vs → ∀ fuel, n < fuel →
+      forDecodeBlock_loop1 (bufOf bs) mn w cnt fuel (i, ptr, st) = .done (cnt, ptr + n * w, st ++ storesFrom i vs) := by
+  intro n
+  induction n with
+  | zero =>
+    intro i ptr st vs hi hr fuel hf
+    obtain ⟨f, rfl⟩ : ∃ f', fuel = f' + 1 := ⟨fuel - 1, by omega⟩
+    simp [readOffsets] at hr
+    subst hr
+    have c : ¬ i < cnt := by omega
+    have : i = cnt := by omega
+    subst this
+    simp [forDecodeBlock_loop1]
+  | succ n ih =>
+    intro i ptr st vs hi hr fuel hf
+    obtain ⟨f, rfl⟩ : ∃ f', fuel = f' + 1 := ⟨fuel - 1, by omega⟩
+    have c : i < cnt := by omega
+    unfold readOffsets at hr
+    cases hp : takeExact w (bs.drop ptr) with
+    | none => rw [hp] at hr; simp at hr
+    | some p =>
+      rw [hp] at hr
+      simp only [] at hr
+      cases hr' : readOffsets n mn w ((bs.drop ptr).drop w) with
+      | none => rw [hr'] at hr; simp at hr
+      | some vs' =>
+        rw [hr'] at hr
+        simp only [Option.some.injEq] at hr
+        subst hr
+        obtain ⟨hpe, hple, _⟩ := takeExact_some hp
+        have hin : ptr + w ≤ bs.length := by rw [List.length_drop] at hple; omega
+        rw [List.drop_drop] at hr'
+        have e1 : (i + 1) % 2 ^ 64 = i + 1 := Nat.mod_eq_of_lt (by omega)
+        simp only [forDecodeBlock_loop1, if_pos c, e1]
+        rw [getQuick_eq bs hb ptr w h1 h8 hin, ← hpe]
+        rw [ih (i + 1) (ptr + w) _ vs' (by omega) hr' f (by omega)]
+        simp only [storesFrom_cons, List.append_assoc, List.singleton_append]
+        have e2 : ptr + w + n * w = ptr + (n + 1) * w := by rw [Nat.succ_mul]; omega
+        rw [e2]
+
+
+/-- **`varintFORBatchDecode`** (scalar build: header check, then `varintFORDecode`) = `varintFORDecode` -/
+theorem forBatchDecode_eq (bs : List Nat) (hb : ∀ b ∈ bs, b < 256) (cap fuel : Nat) (h : Hdr) (hh : readHdr bs = some h)
+    (r : Nat × List (Nat × Nat)) (hd : forDecode fuel (bufOf bs) cap = some r) (hgt : h.count > cap → r = (0, [])) :
+    forBatchDecode fuel (bufOf bs) cap = some r := by
+  obtain ⟨sz, hmeta⟩ := forReadMetadata_eq bs hb h hh
+  unfold forBatchDecode
+  simp only [hmeta, Option.getD_some, hd]
+  by_cases c : h.count > cap
+  · rw [if_pos c, hgt c]
+  · rw [if_neg c]
+
+/-- **`varintFORDecodeBlock(src, values, start, blockSize)`** = the model's block reader: nothing when `start` is past
+    the end, otherwise exactly values[0 … n-1] with n = min(blockSize, count - start) ≤ blockSize -/
+theorem forDecodeBlock_eq (bs : List Nat) (hb : ∀ b ∈ bs, b < 256) (start bsz fuel : Nat) (h : Hdr)
+    (hh : readHdr bs = some h) (hsum : start + bsz < 2 ^ 64) (hsw : start * h.width < 2 ^ 64) (hf : bsz < fuel)
+    (vs : List Nat) (hd : FOR.decBlock bs start bsz = some vs) :
+    forDecodeBlock fuel (bufOf bs) start bsz = some (vs.length, storesFrom 0 vs) ∧ vs.length ≤ bsz := by
+  obtain ⟨sz, hmeta⟩ := forReadMetadata_eq bs hb h hh
+  obtain ⟨rest, g1, g2, g3⟩ := readHdr_parts bs h hh
+  have hrest : bs.drop (h.minLen + 1) = rest := by rw [← List.drop_drop, g2]; rfl
+  have hbr : ∀ b ∈ rest, b < 256 := by rw [← hrest]; exact RLE.mem_drop_lt bs hb _
+  have hmn := get_val_lt bs hb _ _ g1
+  have hcn := get_val_lt rest hbr _ _ g3
+  unfold forDecodeBlock
+  unfold FOR.decBlock at hd
+  simp only [hmeta, hh, Option.getD_some] at hd ⊢
+  by_cases c : start ≥ h.count
+  · rw [if_pos c] at hd ⊢
+    simp only [Option.some.injEq] at hd
+    subst hd
+    simp
+  · rw [if_neg c] at hd ⊢
+    by_cases cw : h.width < 1 ∨ h.width > 8
+    · rw [if_pos cw] at hd; simp at hd
+    · rw [if_neg cw] at hd
+      try simp only [] at hd
+      have e1 : (start + bsz) % 2 ^ 64 = start + bsz := Nat.mod_eq_of_lt hsum
+      have e2 : (h.count + 2 ^ 64 - start) % 2 ^ 64 = h.count - start := by omega
+      simp only [e1, e2]
+      generalize hn : (if start + bsz > h.count then h.count - start else bsz) = n at hd ⊢
+      have hnb : n ≤ bsz := by rw [← hn]; split <;> omega
+      have hl := readOffsets_length _ _ _ _ _ hd
+      rw [Tagged.taggedLen_eq _ hmn, Tagged.taggedLen_eq _ hcn, Nat.mod_eq_of_lt hsw]
+      rw [block_loop bs hb h.minValue n h.width (by omega) (by omega) (by omega) n 0 _ [] vs (by omega) hd fuel
+        (by omega)]
+      simp only [List.nil_append]
+      exact ⟨by rw [hl], by omega⟩
+
 /-- **`varintFORDecode(src, values, maxCount)`** on every byte buffer the model reads inside of: a declared count above
     the capacity returns 0 with no store at all; otherwise the C returns the count and stores exactly the model's values
     at values[0 … count-1], in order and nowhere else. Every fuel above the count. -/
